@@ -554,17 +554,17 @@ func genLokiMatrix(r *rand.Rand, c *Case, p int) {
 		if gridMs < dS*1000 {
 			gridMs = dS * 1000
 		}
-		slots := max(720, 2*maxRows+2)
+		slots := min(max(720, 2*maxRows+2), 10000) // at most 11000 steps, as Prometheus allows
 		fps, order := orderSeries(r, n, true)
 		c.Order = order
 		for i := 0; i < n; i++ {
 			s := rdcat.LogSeries{Fp: fps[i], Labels: labelSet(r, p, i)}
-			for _, k := range pickSlots(r, slots, sizes[i]) {
+			for _, k := range pickSlots(r, slots*int(stepMs)/int(gridMs), sizes[i]) {
 				s.Rows = append(s.Rows, rdcat.LogRow{TsNs: baseS*1e9 + int64(k)*gridMs*1e6, Value: drawFloat(r, special)})
 			}
 			c.Logs = append(c.Logs, s)
 		}
-		end := baseS + int64(slots)*gridMs/1000
+		end := baseS + int64(slots)*stepMs/1000
 		c.FromNs, c.StepNs, c.FillNs = baseS*1e9, stepMs*1e6, dS*1e9
 		q := `rate({a="b"}[5s])`
 		if special {
